@@ -174,6 +174,9 @@ func (f *frame) need() uint64 {
 			n += cStake
 		case 'C', 'A':
 			g := a.body.need()
+			if precN(a.addr) != 0 {
+				g = precGasOperand(a) + 600000 // + memory for the input
+			}
 			c := uint64(cCall)
 			if a.kind == 'A' {
 				c += cAuth
@@ -242,8 +245,9 @@ func (g *gen) block() *block {
 	b.accounts = []acct{
 		{"e", 10, 1000000}, {"e", 11, r.Pick(0, 3, 50)},
 		{"h", 20, r.Pick(1000, 1000, 7)}, {"h", 21, r.Pick(0, 0, 1)}, {"h", 22, 50}, {"h", 23, r.Pick(0, 7)},
-		{"p", 4, 0}, {"e", 30, r.Pick(0, 5)},
+		{"e", 30, r.Pick(0, 5)},
 	}
+	b.accounts = append(b.accounts, precAccounts()...)
 	g.blk = b
 	g.withAuth = r.Chance(1, 2)
 	g.authNonce = 0
@@ -252,6 +256,21 @@ func (g *gen) block() *block {
 		b.txs = append(b.txs, g.tx(i))
 	}
 	return b
+}
+
+func precAccounts() []acct {
+	var out []acct
+	for n := 101; n <= 118; n++ {
+		out = append(out, acct{"p", n, 0})
+	}
+	return out
+}
+
+func (g *gen) precTarget(a *act) {
+	a.addr = "b" + strconv.Itoa(101+g.r.Intn(18))
+	a.body = &frame{end: []string{"stop", "stop", "oog", "invalid", "invalid"}[g.r.Intn(5)]}
+	realizePrec(a)
+	g.st.kinds["prec:"+a.body.end]++
 }
 
 func (g *gen) id() int {
@@ -281,10 +300,20 @@ func (g *gen) tx(i int) *txn {
 		} else {
 			t.target = hosts[r.Intn(len(hosts))]
 			if r.Chance(1, 25) {
-				t.target = []string{"b11", "b40", "b4"}[r.Intn(3)] // EOA, non-existent account, precompile
+				t.target = []string{"b11", "b40", "prec"}[r.Intn(3)] // EOA, non-existent account, precompile
 			}
 			t.rootID = g.id()
-			if g.blk.isHost(t.target) {
+			if t.target == "prec" {
+				tmp := &act{kind: 'C', ck: "call", value: t.value}
+				g.precTarget(tmp)
+				if tmp.body.end == "oog" && precPrice(precN(tmp.addr), false) == 0 {
+					tmp.body.end = "stop"
+				}
+				t.target, t.body = tmp.addr, tmp.body
+				if t.body.end == "oog" && t.value != 0 {
+					// a message call gets no stipend: gas 0 is below any non-zero price
+				}
+			} else if g.blk.isHost(t.target) {
 				t.body = g.frame(1, maxDepth, t.target, false, false)
 			} else {
 				t.body = &frame{end: "stop"}
@@ -355,7 +384,7 @@ func (g *gen) frame(depth, maxDepth int, self string, static, inCreate bool) *fr
 				authed = true
 			}
 			if r.Chance(1, 8) {
-				a.addr = []string{"b11", "b40", "b4"}[r.Intn(3)]
+				a.addr = []string{"b11", "b40", "b104"}[r.Intn(3)]
 			}
 			a.authNonce = g.authNonce
 			if r.Chance(1, 6) {
@@ -367,7 +396,9 @@ func (g *gen) frame(depth, maxDepth int, self string, static, inCreate bool) *fr
 			if a.auth != "-" {
 				g.authNonce++ // the usual case: every authorized AUTHCALL so far was entered
 			}
-			if g.blk.isHost(a.addr) {
+			if precN(a.addr) != 0 || r.Chance(1, 6) {
+				g.precTarget(a)
+			} else if g.blk.isHost(a.addr) {
 				a.body = g.frame(depth+1, maxDepth, a.addr, static, false)
 			} else {
 				a.body = &frame{end: "stop"}
@@ -380,7 +411,7 @@ func (g *gen) frame(depth, maxDepth int, self string, static, inCreate bool) *fr
 			a.ck = []string{"call", "call", "call", "staticcall", "staticcall", "delegatecall", "delegatecall", "callcode"}[r.Intn(8)]
 			a.addr = hosts[r.Intn(len(hosts))]
 			if r.Chance(1, 8) {
-				a.addr = []string{"b11", "b40", "b41", "b4", "b10"}[r.Intn(5)]
+				a.addr = []string{"b11", "b40", "b41", "b104", "b10"}[r.Intn(5)]
 			}
 			if a.ck == "call" || a.ck == "callcode" {
 				a.value = valuePool[r.Intn(len(valuePool))]
@@ -388,12 +419,16 @@ func (g *gen) frame(depth, maxDepth int, self string, static, inCreate bool) *fr
 					a.value = 0
 				}
 			}
-			if g.blk.isHost(a.addr) {
+			if r.Chance(1, 6) {
+				g.precTarget(a)
+			} else if g.blk.isHost(a.addr) {
 				cself := a.addr
 				if a.ck == "delegatecall" || a.ck == "callcode" {
 					cself = self
 				}
 				a.body = g.frame(depth+1, maxDepth, cself, static || a.ck == "staticcall", false)
+			} else if precN(a.addr) != 0 {
+				g.precTarget(a)
 			} else {
 				a.body = &frame{end: "stop"}
 			}
